@@ -52,6 +52,7 @@ func VerifH07() {
 		nd.Assert(w.doSet(0, "a", w.freshVal(), 0) == nil, "H07.interfere")
 	}
 	errs := make([]error, n)
+	nd.SpawnRunsFirst(true)
 	nd.SetPreemptionBound(P)
 	for i := 1; i < n; i++ {
 		i := i
@@ -151,6 +152,7 @@ func VerifH07b() {
 	}
 	w.commit(a, "H07b.first-committer")
 	errs := make([]error, 2)
+	nd.SpawnRunsFirst(true)
 	nd.SetPreemptionBound(P)
 	go func() { errs[1] = w.txs[b].h.Commit(ctx) }()
 	errs[0] = w.txs[b].h.Commit(ctx)
@@ -177,4 +179,60 @@ func VerifH07b() {
 	w.txs[b].open = false
 	w.checkReads("H07b.final")
 	nd.Reach("H07b.end")
+}
+
+// VerifH07c: an autocommit write of the contested key is in flight while the second transaction
+// begins and the first commits. T1 has written a; W (another goroutine) writes a outside any
+// transaction; meanwhile T2 begins, T1 commits, and - after W has finished - T2 writes a and
+// commits. T2 began before T1's commit, so whatever W and T1 did to each other, T1 and T2 cannot
+// both succeed.
+func VerifH07c() {
+	P := 1
+	if nd.Tier() == 1 {
+		P = 2
+	}
+	nd.Bound("H07c.preemption_bound", P)
+	concreteCounter = true
+	w := newWorld(stdConfig(), []string{"a"})
+	if nd.Choice("pre-value", 2) == 1 {
+		nd.Assert(w.doSet(0, "a", w.freshVal(), 0) == nil, "H07c.pre")
+	}
+	t1 := w.begin(snapshotLevels[nd.Choice("level", 2)])
+	nd.Assert(w.doSet(t1, "a", w.freshVal(), 0) == nil, "H07c.tx-write")
+	wv := w.freshVal()
+	var werr, berr, err1 error
+	var h2 fs_db.Tx
+	lv2 := snapshotLevels[nd.Choice("level", 2)]
+	writer := func() { werr = w.d.Set(ctx, "a", wv) }
+	txs := func() {
+		h2, berr = w.d.Begin(ctx, lv2)
+		err1 = w.txs[t1].h.Commit(ctx)
+	}
+	// either side runs in the spawned goroutine (so that one preemption can stop either of them
+	// half-way while the other runs to completion)
+	nd.SpawnRunsFirst(true)
+	nd.SetPreemptionBound(P)
+	if nd.Choice("spawned-side", 2) == 0 {
+		go writer()
+		txs()
+	} else {
+		go txs()
+		writer()
+	}
+	nd.JoinAll()
+	nd.SetPreemptionBound(0)
+	nd.Assert(berr == nil, "H07c.begin")
+	nd.Assert(werr == nil, "H07c.autocommit-write-ok")
+	v2 := w.freshVal()
+	nd.Assert(h2.Set(ctx, "a", v2) == nil, "H07c.tx2-write")
+	err2 := h2.Commit(ctx)
+	if err1 != nil {
+		nd.Assert(errors.Is(err1, fs_db.ErrTxSerialization), "H07c.loser-error-class")
+	}
+	if err2 != nil {
+		nd.Assert(errors.Is(err2, fs_db.ErrTxSerialization), "H07c.loser-error-class")
+	}
+	nd.Assert(err1 != nil || err2 != nil, "H07c.both-commits-succeed-around-an-inflight-autocommit-write")
+	// (T2 alone may well succeed: when W ran to completion before T2 began and T1 lost against W)
+	nd.Reach("H07c.end")
 }
